@@ -71,7 +71,7 @@ class Gen(object):
         if k < 0.36:
             return om.integer(r.choice((0, 1, 7, 42, 1000000)))
         if k < 0.42:
-            return om.real(r.choice(('1.5', '0.25', '10.0', '3.14159')))
+            return om.real(r.choice(('1.5', '0.25', '10.0', '3.14159', '1.5f', '2.0L', '3e2F', '.5', '2.', '1e5', '2.e3', '7.25l')))
         if k < 0.50:
             return om.string(r.choice(('', 'abc', 'a b', '// no comment', '/* nor this */', "it's", 'end if;')))
         if k < 0.56:
